@@ -756,7 +756,15 @@ def has_raman(topo):
 
 def run(ctx):
     rng = ctx.rng
+    # second tie: re-translate the decision code of /repo (harness/pygen_c11.py); the equivalence lemmas of
+    # Proofs/RouteGen.v / Proofs/DisjointGen.v are then re-checked by check_props against what the code says now
+    from . import pygen_c11
+    gen_ok, gen_msg = pygen_c11.regenerate(('route',))
     ctx.proof = common.check_props('C11')
+    if not gen_ok:
+        ctx.proof['ok'] = False
+        ctx.proof['log'] = 'harness/pygen_c11.py: ' + gen_msg + '\n' + ctx.proof.get('log', '')
+        ctx.proof['failed_file'] = 'theories/Gen (translation of /repo source failed: ' + gen_msg[:300] + ')'
     ctx.rule = ('random ROADM meshes (2-8 sites, 1-3 spans per direction, splits/fused/user amplifiers) auto-designed by '
                 'gnpy x 8 random requests each (no list / ROADM lists / line-element lists spelling a whole path, a part, '
                 'a loop / shuffled / with transceivers and unknown names; STRICT, LOOSE and mixed) driven through '
@@ -775,6 +783,11 @@ def run(ctx):
             nets.append(c)
         for _ in range(ctx.scale(100, 1500)):
             nets.append({'topo': gen_case(rng), 'requests': None})
+    # the vector stream evaluates terms of Run/C12.v, which is not a dependency of Props/C11.v: build it now
+    ok_b, out_b = common.coq_build(['theories/Run/C12.vo'])
+    if not ok_b:
+        ctx.proof['ok'] = False
+        ctx.proof['log'] = 'Run/C12.vo does not build\n' + out_b[-2000:]
     vec_nets = [c for c in nets if 'groups' in c]             # batches with a synchronisation vector (corpus / replay)
     nets = [c for c in nets if 'groups' not in c]
     if vec_nets:
@@ -830,6 +843,8 @@ def run(ctx):
     elif nets and nets[0].get('big'):
         run_big(ctx, rng, 1, fixed=nets)
     ctx.assumptions += [
+        'translator tie: harness/pygen_c11.py (fail-closed template matching + translation of the tests, constants and '
+        'branches listed in its docstring into model terms, regenerated from the source on every run)',
         'links, element kinds and OMS lists handed to Coq are read from the designed networkx graph / build_oms_list of '
         'gnpy itself (successor order); edge weights are NOT: they are recomputed as fibre length of the span the edge '
         'leaves / 0.01 m otherwise, x100 = integer cm (exactness checked per network) and compared with the weight '
